@@ -94,8 +94,13 @@ type Captured = Arc<Mutex<Vec<(String, Vec<u8>, u16)>>>;
 
 struct CapSink {
     got: Captured,
+    /// what `is_connected()` reports; membership in the registry, not this flag, decides who gets a broadcast
+    connected: bool,
 }
 impl PeerSink for CapSink {
+    fn is_connected(&self) -> bool {
+        self.connected
+    }
     fn send_notify(&self, method: &str, body: NotifyBody) -> Result<(), PeerSendError> {
         let fmt = body.body_format() as u16;
         // widen the window in which a broadcast is sending outside the registry lock
@@ -133,7 +138,9 @@ impl Sys {
     fn apply(&self, op: &Op) -> (Ret, Option<String>) {
         match *op {
             Op::Insert(p) => {
-                self.reg.insert(PeerHandle::new(pid(p), Arc::new(CapSink { got: self.sinks[p as usize].clone() })));
+                // peer 2's sink always reports "not connected" (e.g. the window between its channel closing and the
+                // disconnect path removing it): it is still present, so it still gets every broadcast and a result
+                self.reg.insert(PeerHandle::new(pid(p), Arc::new(CapSink { got: self.sinks[p as usize].clone(), connected: p != 2 })));
                 (Ret::Unit, None)
             }
             Op::Remove(p) => (Ret::Bool(self.reg.remove(pid(p)).is_some()), None),
